@@ -337,3 +337,54 @@ Proof.
   rewrite Hcells by lia. change (sdata text2) with (patch_all (sdata text) es (rr_outs r)).
   specialize (PW k ltac:(lia)). replace (pos + 0 + k) with (pos + k) in PW by lia. exact PW.
 Qed.
+
+(* ------------------------------------------------------------------ round 4: ANY entry list, any address size (x86-32, 4-byte embedded labels, ...) *)
+(* the bytes of a section after relocate_to_base patched it (C10's patch_all = the writes relocate_holder performs) at the i-th of a list
+   of pairwise disjoint in-bounds sites are the little-endian value word the model computed for that entry, whatever its kind / width *)
+Theorem relocated_site_bytes base asize atoff reserved last es r data i e o :
+  relocate base asize atoff reserved last es = inl r ->
+  (forall e', In e' es -> site_wf data e') -> sites_disjoint es ->
+  nth_error es i = Some e -> nth_error (rr_outs r) i = Some o ->
+  (forall k, 0 <= k < vsize (e_fmt e) ->
+     cell (patch_all data es (rr_outs r)) (e_off e + e_lead e + k) = cell (le_bytes (Z.to_nat (vsize (e_fmt e))) (o_word o)) k) /\
+  exists s1 s2, relocate_entry base asize atoff s1 e = inl (o, s2).
+Proof.
+  intros Er Hwf Hdis He Ho. split.
+  - exact (proj1 (patch_all_site es (rr_outs r) data i e o Hwf Hdis He Ho)).
+  - unfold relocate in Er. destruct (relocate_all base asize atoff [] es) as [[os slots]|x] eqn:Ea; [|discriminate].
+    injection Er as <-. cbn [rr_outs] in Ho. destruct (relocate_all_sound _ _ _ _ _ _ _ Ea) as (_ & _ & _ & Hall).
+    destruct (Hall i e o He Ho) as (s1 & s2 & H & _). eauto.
+Qed.
+
+(* 4-byte embedded label address / x86-32 [label + disp] operand (RelToAbs, 4-byte unsigned word), any address size: the four bytes in
+   the relocated section are base + target section offset + payload, little endian, and that value fits 32 bits *)
+Theorem relocated_abs32_site base asize atoff reserved last es r data i e o toff :
+  relocate base asize atoff reserved last es = inl r ->
+  (forall e', In e' es -> site_wf data e') -> sites_disjoint es ->
+  nth_error es i = Some e -> nth_error (rr_outs r) i = Some o ->
+  e_kind e = RRelToAbs (Some toff) -> e_fmt e = ufmt 4 -> e_old e = 0 ->
+  let w := (e_payload e + base + toff) mod 2 ^ 64 in
+  w < 2 ^ 32 /\ forall k, 0 <= k < 4 -> cell (patch_all data es (rr_outs r)) (e_off e + e_lead e + k) = cell (le_bytes 4 w) k.
+Proof.
+  intros Er Hwf Hdis He Ho Hk Hf Hold w.
+  destruct (relocated_site_bytes base asize atoff reserved last es r data i e o Er Hwf Hdis He Ho) as (Hb & s1 & s2 & Hre).
+  destruct (reloc_abs_exact base asize atoff s1 e o s2 Hre toff 4 Hk Hf ltac:(tauto) Hold) as (Hw & Hlt & _).
+  split; [unfold w; rewrite <- Hw; exact Hlt|].
+  intros k Hk4. rewrite Hf in Hb. specialize (Hb k Hk4). unfold w. rewrite <- Hw. exact Hb.
+Qed.
+
+(* x86-32 call / jmp / jcc rel32 to an absolute target (AbsToRel, 32-bit address space): the four bytes are the word whose rel32
+   reaches the target modulo 2^32 *)
+Theorem relocated_rel32_site32 base asize atoff reserved last es r data i e o :
+  relocate base asize atoff reserved last es = inl r ->
+  (forall e', In e' es -> site_wf data e') -> sites_disjoint es ->
+  nth_error es i = Some e -> nth_error (rr_outs r) i = Some o ->
+  e_kind e = RAbsToRel -> asize <= 4 -> e_fmt e = fmt_of_kind K_Rel32 -> e_old e = 0 ->
+  rel_target 32 base (e_secoff e + e_off e + e_region e) (decode_kind K_Rel32 (o_word o)) = e_payload e mod 2 ^ 32 /\
+  forall k, 0 <= k < 4 -> cell (patch_all data es (rr_outs r)) (e_off e + e_lead e + k) = cell (le_bytes 4 (o_word o)) k.
+Proof.
+  intros Er Hwf Hdis He Ho Hk Ha Hf Hold.
+  destruct (relocated_site_bytes base asize atoff reserved last es r data i e o Er Hwf Hdis He Ho) as (Hb & s1 & s2 & Hre).
+  split; [exact (reloc_rel_exact32 base asize atoff s1 e o s2 Hre Hk Ha Hf Hold)|].
+  intros k Hk4. rewrite Hf in Hb. exact (Hb k Hk4).
+Qed.
